@@ -563,7 +563,7 @@ def resolveMut (guard : Bool) (src : Option Loc) : State â†’ Loc â†’ List Step â
 /-! ## `operator[] const` -/
 
 /-- `const Var& operator[](int) const` / `(const String&) const`: an element, a property, or the static `none`.
-An array index outside `[0, length)` is an unchecked read in the C++: the harness never issues it (`nopath`). -/
+An array index outside `[0, length)` gives `none` as well (commit 8dbc483; it was an unchecked read before). -/
 def stepConst (h : Heap) (v : V) (s : Step) : Except Err V :=
   match s, v with
   | .idx i, .arr id =>
@@ -571,7 +571,7 @@ def stepConst (h : Heap) (v : V) (s : Step) : Except Err V :=
     | .error e => .error e
     | .ok b => match b.items[i]? with
       | some kv => .ok kv.2
-      | none => .error .nopath
+      | none => .ok .none                    -- commit 8dbc483: an index outside [0, length) gives the static `none`
   | .key k, .obj id =>
     match getB h id with
     | .error e => .error e
@@ -601,7 +601,7 @@ def stepConstLoc (h : Heap) (v : V) (s : Step) : Except Err (Option Loc Ã— V) :=
     | .error e => .error e
     | .ok b => match b.items[i]? with
       | some kv => .ok (some (.item id i), kv.2)
-      | none => .error .nopath
+      | none => .ok (none, .none)
   | .key k, .obj id =>
     match getB h id with
     | .error e => .error e
